@@ -312,7 +312,8 @@ def _intstore(ctx, desc):
                         exp = float(inff.interp_linear(torch.tensor(older, dtype=torch.float64), torch.tensor(newer, dtype=torch.float64),
                                                        torch.tensor(float(c["elapsed"]), dtype=torch.float64), dt))
                     ctx.count("real_valued_reads_of_nonfloat_records")
-                    if abs(float(outs[-1][e]) - exp) > 1e-5 * max(1.0, abs(exp)):
+                    # (the scalar-time form does its arithmetic in single precision for a non-float record: values up to 200)
+                    if abs(float(outs[-1][e]) - exp) > 1e-3:
                         return ctx.violation(f"intstore.select.{mode}.linear.value", f"got {outs[-1][e]} expected {exp}", rdesc, {"class": c})
                 continue
             if name == "spy" and not c["ongrid"]:
@@ -344,7 +345,7 @@ def _intstore(ctx, desc):
                 if outs[-1][e] != exp:
                     return ctx.violation(f"intstore.select.{mode}.{name}.value", f"got {outs[-1][e]} expected {exp}", rdesc, {"class": c})
         if name != "nearest" or c["ongrid"] or abs(c["elapsed"] / dt - 0.5) > 1e-6:
-            if not (np.allclose(outs[0], outs[1], rtol=1e-6, atol=1e-6) if name == "linear" else np.array_equal(outs[0], outs[1])):
+            if not (np.allclose(outs[0], outs[1], rtol=1e-5, atol=1e-3) if name == "linear" else np.array_equal(outs[0], outs[1])):
                 return ctx.violation(f"intstore.select.scalar_ne_tensor.{name}", "scalar-time and tensor-time select disagree", rdesc)
 
 
